@@ -50,7 +50,7 @@ CLAIMED = {
          "trusted: cbmc 6.11.0 (+cvc5), sqrt by assumed contract; orders bounded; numeric clauses not applicable",
          "bounded symbolic execution of the real factorization code with CBMC against structural postconditions", "5/C08"),
  "C01": ("proof",
-         "UNBOUNDED: window lemmas for the retrace steps a_avl_handle_growth / a_avl_handle_shrink (incl. both rotations) and for the successor splice a_avl_handle_remove (spine depth <= 2), packed parent word: for boundary subtrees of every height the rebalanced window is a valid AVL search tree of the expected height with intact parent links, or the step invariant holds one level up (induction over the climb loop on paper); packed-word accessors for all pointers/factors. BOUNDED: the real a_avl_insert / a_avl_remove / a_avl_search run by CBMC on EVERY valid AVL tree of depth <= 3 (<= 7 nodes, one unit per tree shape; keys, inserted key position and removed node symbolic; depth 4 = up to 15 nodes in the thorough tier): afterwards a recursive checker over the actual links shows search order, parent links pointing back, |height difference| <= 1 and stored balance factor == difference; node count and lookups give the element set; duplicate insertion returns the resident node and changes no link; lookup finds exactly the present keys. The bounded units are labelled bounded and not counted as discharged.",
+         "UNBOUNDED: window lemmas for the retrace steps a_avl_handle_growth / a_avl_handle_shrink (incl. both rotations) for the successor splice a_avl_handle_remove (spine depth <= 2; also through a_avl_remove with the retrace step replaced by a recording contract), and glue lemmas showing that a_avl_insert_adjust and the simple unlink of a_avl_remove hand exactly the step invariant to the first retrace step (or finish with a valid tree), packed parent word: for boundary subtrees of every height the rebalanced window is a valid AVL search tree of the expected height with intact parent links, or the step invariant holds one level up (induction over the climb loop on paper); packed-word accessors for all pointers/factors. BOUNDED: the real a_avl_insert / a_avl_remove / a_avl_search run by CBMC on EVERY valid AVL tree of depth <= 3 (<= 7 nodes, one unit per tree shape; keys, inserted key position and removed node symbolic; depth 4 = up to 15 nodes in the thorough tier): afterwards a recursive checker over the actual links shows search order, parent links pointing back, |height difference| <= 1 and stored balance factor == difference; node count and lookups give the element set; duplicate insertion returns the resident node and changes no link; lookup finds exactly the present keys. The bounded units are labelled bounded and not counted as discharged.",
          "trusted: cbmc 6.11.0 + CaDiCaL; whole-tree units use the unpacked node layout (A_SIZE_POINTER=1), packed layout: accessor proofs + thorough-tier depth-2 units; histories by induction over operations on paper; trees deeper than the bound not covered",
          "bounded exhaustive symbolic execution with CBMC of the real tree code against the full representation invariant", "5/C01"),
  "C02": ("proof",
